@@ -14,12 +14,13 @@ ERRNOS = ['ENOENT', 'EACCES', 'ENOSPC', 'EIO']
 
 
 def S(op, ctr='', n=0):
-    return {'op': op, 'ctr': ctr, 'n': n}
+    return {'op': op, 'ctr': ctr, 'n': n, 'toolong': ctr.startswith('X')}
 
 
 # API scenarios of internal/counter.  setup: fresh = no telemetry directory at all, existing = a count file of
 # the current week with counters o1, o2 (independent writer), full = the same with its first page used up.
-# Counters whose name starts with L have 3000-byte names.
+# Counters whose name starts with L have 3000-byte names, H 4096-byte names (the longest the format stores; three
+# fill a page), X 5000-byte names (cannot be stored: the amount stays in memory).
 COUNTER_SCENARIOS = [
     dict(name='open', setup='fresh', mode='', steps=[S('open'), S('add', 'c1', 2), S('add', 'c1', 1)]),
     dict(name='firstadd', setup='existing', mode='local',
@@ -30,6 +31,13 @@ COUNTER_SCENARIOS = [
          steps=[S('open'), S('add', 'c1', 1), S('add', 'o1', 1), S('week2'), S('rotate'), S('add', 'c1', 2), S('add', 'o1', 1), S('rotate'), S('add', 'c2', 1)]),
     dict(name='read', setup='existing', mode='on 2020-01-01',
          steps=[S('open'), S('add', 'c1', 2), S('read', 'c1'), S('add', 'c1', 1), S('read', 'o1'), S('add', 'o2', 1)]),
+    # a failed first growth (any single fault in it) is followed by a successful growth caused by ANOTHER new counter while the
+    # first still has its amount pending in memory; fault-free, the second growth happens at Hd
+    dict(name='growth2', setup='full', mode='local',
+         steps=[S('open'), S('add', 'Ha', 2), S('add', 'Hb', 1), S('add', 'Ha', 1), S('add', 'Hc', 1), S('add', 'Hd', 1), S('add', 'Ha', 1), S('add', 'o1', 1)]),
+    # no fault needed: a name that is too long to be stored stays pending, then another counter makes the file grow
+    dict(name='toolong', setup='full', mode='local',
+         steps=[S('open'), S('add', 'Xbig', 2), S('add', 'o1', 1), S('add', 'Lnew', 1), S('add', 'Xbig', 1), S('add', 'Lnew', 1), S('add', 'c1', 1)]),
     # files deleted while in use
     dict(name='rmfile', setup='full', mode='local',
          steps=[S('open'), S('add', 'o1', 1), S('rmfile'), S('add', 'o1', 1), S('add', 'Lnew', 1), S('read', 'o1'), S('add', 'c1', 1), S('week2'), S('rotate'), S('add', 'o1', 1)]),
@@ -43,7 +51,7 @@ UPLOAD_SCENARIOS = [
     dict(name='run_on_junk', mode='on 2020-01-01', junk=True, debug=False, steps=['run']),
     dict(name='run_nomode', mode='', junk=True, debug=False, steps=['run']),
 ]
-PAIR_SCENARIOS = {'open', 'firstadd', 'growth', 'rotation', 'read', 'run_local', 'run_on'}
+PAIR_SCENARIOS = {'open', 'firstadd', 'growth', 'growth2', 'toolong', 'rotation', 'read', 'run_local', 'run_on'}
 LEAF = ('load32', 'cas32', 'entryAt', 'load', 'update', 'Load', 'Store', 'CompareAndSwap')
 
 
@@ -151,7 +159,7 @@ def run(ctx):
     pool = ThreadPoolExecutor(max_workers=8)
     # the corruption product is enumerated by TLC while the scenarios are being recorded
     maxdmg = ctx.pick(3, 6)
-    fut_corrupt = pool.submit(ctx.tlc, 'Corrupt', cfg_text='SPECIFICATION Spec\nINVARIANT Sane\nCHECK_DEADLOCK FALSE\nCONSTANTS\n MaxDamage = %d\n' % maxdmg,
+    fut_corrupt = pool.submit(ctx.tlc, 'Corrupt', cfg_text='SPECIFICATION Spec\nINVARIANT Sane\nCHECK_DEADLOCK FALSE\nCONSTANTS\n MaxDamage = %d\n MaxDamageParse = 2\n' % maxdmg,
                               dump=True, workers=4, label='Corrupt (MaxDamage=%d)' % maxdmg)
     fut_cases = pool.submit(lambda: corrupt_replay(ctx, rng2, fut_corrupt.result(), pool))
     fstate = faults_replay(ctx, rng, pool)
@@ -311,8 +319,8 @@ def faults_decide(ctx, cases, meta, scns, index, rec_text, mc):
 
 
 # -------------------------------------------------------------------------- corrupt
-DIMS = ('hdr', 'trunc', 'limit', 'headE', 'headN', 'nlenC', 'nextC', 'nextE')
-UNDAMAGED = dict(hdr='ok', trunc='none', limit='ok', headE='ok', headN='zero', nlenC='ok', nextC='ok', nextE='ok')
+DIMS = ('hdr', 'trunc', 'limit', 'headE', 'headN', 'nlenC', 'nextC', 'nextE', 'vals')
+UNDAMAGED = dict(hdr='ok', trunc='none', limit='ok', headE='ok', headN='zero', nlenC='ok', nextC='ok', nextE='ok', vals='nz')
 
 
 def corrupt_replay(ctx, rng, r, pool):
@@ -326,7 +334,7 @@ def corrupt_replay(ctx, rng, r, pool):
 
     def cyclic(f, op):
         # lookups that may meet a damaged link (the known non-terminating walk costs a full step budget each)
-        return op != 'addN' and (f['nextC'] == 'self' or f['nextE'] in ('self', 'cycle2'))
+        return op in ('addE', 'addM') and (f['nextC'] == 'self' or f['nextE'] in ('self', 'cycle2'))
     sel = []
     if ctx.thorough():
         slow = [v for v in vectors if cyclic(v[0], v[1])]
@@ -348,12 +356,28 @@ def corrupt_replay(ctx, rng, r, pool):
     nenum = len(cases)
     for k in range(ctx.pick(3000, 30000)):
         c = dict(UNDAMAGED)
-        c.update(id=len(cases) + 1, op=['addE', 'addN', 'addM'][k % 3], rand=rng.randrange(1, 1 << 40))
+        c.update(id=len(cases) + 1, op=['addE', 'addN', 'addM', 'read', 'addE', 'addN', 'addM', 'upload'][k % 8], rand=rng.randrange(1, 1 << 40))
         cases.append(c)
     ctx.log('corrupt files to replay: %d enumerated + %d random' % (nenum, len(cases) - nenum))
     recs, out = gather(sharded(ctx, pool, './internal/counter', 'TestVerifC05Corrupt', {'budget': 100000, 'maxHangs': ctx.pick(12, 400)}, 'cases', cases, ctx.pick(3, 5)))
     res = {x['id']: x for x in recs if x.get('kind') == 'case'}
     skipped = {x['id'] for x in recs if x.get('kind') == 'skipped'}
+    # the files of the "upload" operation are handed to the uploader harness
+    handed = {x['id']: x for x in recs if x.get('kind') == 'bytes'}
+    if handed:
+        files = [dict(id=i, name=x['name'], data=x['data']) for i, x in sorted(handed.items())]
+        urecs, out2 = gather(sharded(ctx, pool, './internal/upload', 'TestVerifC05UploadCorrupt', {'budget': 200000, 'maxHangs': ctx.pick(8, 100)}, 'files', files, ctx.pick(2, 3)))
+        out += out2
+        for x in urecs:
+            if x.get('kind') == 'skipped':
+                skipped.add(x['id'])
+            elif x.get('kind') == 'case':
+                h = handed[x['id']]
+                wrong = x['state'] not in ('kept', 'reported') or bool(x['bystanders'])
+                res[x['id']] = dict(kind='case', id=x['id'], open='-', ret=x['ret'], steps=x['steps'], where=x['where'], text=x['text'], mode='-', dP=0, dE=0,
+                                    others=wrong, untouched=x['state'] == 'kept', dbl=False, chain=h.get('chain', '-'), limClass=h.get('limClass', '-'), damage=h.get('damage'),
+                                    lost=('count file %s; %s' % (x['state'], x['bystanders'])) if wrong else '', state=x['state'], recovered=x['recovered'], reports=x.get('reports'))
+        ctx.cov['uploader_runs_on_corrupt_files'] = len(files)
     if len(res) + len(skipped) != len(cases):
         raise Infra('C05: %d results for %d corrupt files\n%s' % (len(res), len(cases), out[-2000:]))
     if skipped:
@@ -409,7 +433,11 @@ def corrupt_decide(ctx, cases, res, nenum):
                 ctx.warn('MODEL-DIVERGENCE corrupt file %s, %s: %s (expected mode %s; observed open=%s mode=%s untouched=%s)' % (
                     json.dumps(dmg), c['op'], verdict, want, o['open'], o['mode'], o['untouched']))
             continue
-        if verdict in ('hang', 'blocked'):
+        if c['op'] in ('read', 'upload'):
+            # reading the whole file (counter.Read / the uploader's parse)
+            what = hang_fn(o.get('where')) if verdict in ('hang', 'blocked') else (o.get('where') or '?') if verdict in ('panic', 'memfault') else o.get('state', 'file-changed')
+            sig = 'C05:corrupt:%s:%s:%s' % (c['op'], verdict, what)
+        elif verdict in ('hang', 'blocked'):
             sig = 'C05:corrupt:%s:%s:lookup=%s' % (verdict, hang_fn(o.get('where')), look)
         elif verdict in ('panic', 'memfault'):
             sig = 'C05:corrupt:%s:%s:lookup=%s' % (verdict, o.get('where') or '?', look)
